@@ -44,6 +44,7 @@ def plan(tier, seed):
         specs.append({'kind': 'png', 'count': 8 if tier == 'quick' else 40, 'first': i == 0})
     for i in range(2 if tier == 'quick' else 8):
         specs.append({'kind': 'resave', 'count': 15 if tier == 'quick' else 80})
+    specs.append({'kind': 'omitted', 'count': 20 if tier == 'quick' else 150})
     return specs
 
 
@@ -308,6 +309,8 @@ def run_shard(spec, ctx):
                     ctx.violation('.p8 reader: version %r' % g2.version, case)
                 elif b''.join(g2.lua.to_lines()) != wantcode:
                     ctx.violation('.p8 reader: code differs', case)
+    elif kind == 'omitted':
+        run_omitted(ctx, rng, spec)
     elif kind == 'resave':
         # history: ONE Game object is saved several times, in both formats, with accessor edits in between; every file must
         # encode the cart memory as it is at that moment
@@ -409,6 +412,105 @@ def run_shard(spec, ctx):
                 ctx.violation('.p8.png writer: upper six bits of the picture changed', case)
 
 
+def run_omitted(ctx, rng, spec):
+    """.p8 files that leave out data sections (current PICO-8 does not write a section that is entirely default).  A section that
+    is not in the file reads as the default region of its full size (gfx/gff/map all zero; sfx/music as an empty cart has them);
+    carts loaded one after the other do not share it; written back, every section has its full size again and the .p8.png
+    memory layout is the usual one."""
+    from pico8.game.formatter.p8 import P8Formatter
+    from pico8.game.formatter.p8png import P8PNGFormatter
+    from pico8.game.game import Game
+    SIZES = rc.REGION_SIZES
+    empty = carts.game_regions(Game.make_empty_game())
+    for name in ('gfx', 'gff', 'map'):
+        if any(empty[name]):
+            ctx.violation('empty default %s is not all zero' % name, {'kind': 'omitted'})
+            return
+    names = [n for n, _ in rc.REGIONS]
+    prev = None
+    for i in range(spec['count']):
+        regions, mode = carts.random_regions(rng)
+        regions['music'] = rc.music_mask(regions['music'])
+        omit = tuple(n for n in names if rng.random() < 0.4) or (names[i % 5],)
+        if i % 7 == 0:
+            omit = tuple(names)
+        code = carts.simple_lua(rng, rng.choice((0, 40, 300)))
+        version = rng.choice((8, 33, 41))
+        # sections current PICO-8 writes short: only the rows up to the last one that holds anything but default contents
+        trim = tuple(n for n in names if n not in omit and rng.random() < 0.5)
+        rowbytes = {'gfx': 64, 'gff': 128, 'map': 128, 'music': 4, 'sfx': 68}
+        regions = dict(regions)
+        for n in trim:
+            nrows = SIZES[n] // rowbytes[n]
+            keep = rng.choice((0, 1, nrows // 2, nrows - 1, rng.randrange(nrows + 1))) * rowbytes[n]
+            if n == 'sfx':
+                keep = max(keep, 68)      # pattern 0 has its own default (speed 1) in an empty cart; keep it written
+            regions[n] = bytes(regions[n][:keep]) + bytes(empty[n][keep:])
+            ctx.feature('trimmed_' + n)
+        data = rc.write_p8(regions, code, version=version, omit=omit, trim=trim, label=carts.random_bytes(rng, 8192) if i % 3 == 0 else None)
+        case = {'kind': 'omitted', 'regions': regions, 'omit': list(omit), 'trim': list(trim), 'code': code, 'version': version}
+        ctx.case((rc.join_memory(regions), omit, code), nontrivial=True)
+        for n in omit:
+            ctx.feature('omitted_' + n)
+        want = {n: (empty[n] if n in omit else regions[n]) for n in names}
+        try:
+            g = P8Formatter.from_file(io.BytesIO(data))
+        except Exception as e:
+            ctx.violation('.p8 reader raised %r on a file without the sections %s' % (e, list(omit)), case)
+            return
+        ctx.monitor('files_with_omitted_sections_read')
+        got = carts.game_regions(g)
+        for n in names:
+            if got[n] != want[n]:
+                ctx.violation('.p8 reader: section %s (%s) reads as %d bytes %s; expected the %s of %d bytes%s' % (
+                    n, 'omitted from the file' if n in omit else 'written without its trailing default rows' if n in trim else 'present', len(got[n]), 'that differ from the default' if n in omit else
+                    'that differ from the text', 'default region' if n in omit else 'bytes the text encodes', len(want[n]),
+                    ' (an earlier cart loaded in this process was edited in that section)' if (prev and n in prev and n in omit) else ''), case)
+                return
+        # written back in both formats, read by the reference readers
+        try:
+            buf = io.BytesIO()
+            P8Formatter.to_file(g, buf)
+            ref = rc.read_p8(buf.getvalue())
+            buf2 = io.BytesIO()
+            P8PNGFormatter.to_file(g, buf2)
+            refp = rc.read_p8png(buf2.getvalue())
+        except Exception as e:
+            ctx.violation('writing back a cart loaded from a file without the sections %s failed: %r' % (list(omit), e), case)
+            return
+        ctx.monitor('carts_with_omitted_sections_written_back')
+        for n in names:
+            w = want[n] if n != 'music' else rc.music_mask(want[n])
+            if ref[n] is None or ref[n] != w:
+                ctx.violation('.p8 written back: section %s has %s bytes, the cart memory has %d' % (
+                    n, 'no' if ref[n] is None else len(ref[n]), len(w)), case)
+                return
+            if refp[n] != want[n]:
+                ctx.violation('.p8.png written back: region %s at its address differs from the cart memory' % n, case)
+                return
+        if refp['version'] != version:
+            ctx.violation('.p8.png written back: byte 0x8000 is %d, the version is %d' % (refp['version'], version), case)
+            return
+        # edit every omitted section of this cart; the next cart's omitted sections must not show the edits
+        try:
+            if 'gff' in omit:
+                g.gff.set_flags(rng.randrange(256), 0xff)
+            if 'map' in omit:
+                g.map.set_cell(rng.randrange(128), rng.randrange(32), 1 + rng.randrange(255))
+            if 'gfx' in omit:
+                g.gfx.set_sprite(rng.randrange(256), [[1 + rng.randrange(15) for _ in range(8)] for _ in range(8)])
+            if 'music' in omit:
+                g.music.set_channel(rng.randrange(64), rng.randrange(4), rng.randrange(64))
+            if 'sfx' in omit:
+                g.sfx.set_note(rng.randrange(64), rng.randrange(32), pitch=1 + rng.randrange(60), waveform=3, volume=5, effect=1)
+            g.write_cart_data(b'\xee' * 16, rng.choice((0x0, 0x2000, 0x3000, 0x3100, 0x3200)))
+        except Exception as e:
+            ctx.violation('editing a cart loaded from a file without the sections %s failed: %r' % (list(omit), e), case)
+            return
+        prev = set(omit)
+        ctx.feature('omitted_section_carts')
+
+
 def replay(case, ctx):
     if case.get('kind') == 'section':
         section_pair(ctx, case['name'], case['data'])
@@ -437,6 +539,11 @@ def gates(m, tier):
             missed.append('%s = %d' % (k, mon.get(k, 0)))
     if f.get('resave_histories', 0) < 20 or f.get('crlf_file_accepted', 0) + f.get('crlf_file_rejected', 0) < 10:
         missed.append('resave histories %d, CRLF variants %d' % (f.get('resave_histories', 0), f.get('crlf_file_accepted', 0) + f.get('crlf_file_rejected', 0)))
+    if any(f.get('trimmed_' + n, 0) < 3 for n, _ in rc.REGIONS):
+        missed.append('sections written without trailing default rows: %s' % {n: f.get('trimmed_' + n, 0) for n, _ in rc.REGIONS})
+    if f.get('omitted_section_carts', 0) < 15 or any(f.get('omitted_' + n, 0) < 3 for n, _ in rc.REGIONS):
+        missed.append('carts from files with omitted sections: %d (%s)' % (
+            f.get('omitted_section_carts', 0), {n: f.get('omitted_' + n, 0) for n, _ in rc.REGIONS}))
     if f.get('p8_label', 0) < 5 or f.get('p8_nolabel', 0) < 5:
         missed.append('label present/absent under-sampled')
     return missed
